@@ -33,7 +33,7 @@ STATE_MEASURE = 'distinct (descriptor counts per message, max descriptors queued
 PROBES = ['fd-of-next-message-queued-early', 'fds-of-two-later-messages-queued',
           'fd-with-last-byte', 'fd-with-first-byte', 'plain-message-between-fd-messages',
           'index-out-of-order', 'three-descriptors', 'send-side', 'read-spans-messages', 'undecodable-message-with-descriptors',
-          'dropped-at-undecodable-message', 'prepared-message-sent-twice', 'receiver-is-client-connection', 'receiver-accepts-pipelined-handshake', 'same-descriptor-in-two-arguments', 'reply-to-a-cancelled-call-carries-descriptors', 'handler-raises']
+          'dropped-at-undecodable-message', 'prepared-message-sent-twice', 'receiver-is-client-connection', 'receiver-accepts-pipelined-handshake', 'same-descriptor-in-two-arguments', 'reply-to-a-cancelled-call-carries-descriptors', 'handler-raises', 'minutes-between-reads']
 COMPONENTS = {
     'real': ['txdbus.protocol.BasicDBusProtocol (fileDescriptorReceived, rawDBusMessageReceived)',
              'txdbus.message.parseMessage / txdbus.marshal unmarshal_unix_fd',
@@ -276,6 +276,11 @@ def recv_side(ctx):
                 max_ahead = max(max_ahead, len(ahead))
             if endpos > cur_end:
                 sim.probe('read-spans-messages')
+        if ds.flag(0.02):
+            # a slow or backlogged peer: time passes between two reads (descriptors may have
+            # arrived long before the last byte of their message)
+            sim.probe('minutes-between-reads')
+            sim.advance(ds.pick([59.0, 61.0, 600.0]))
         sim.sched('d', bc)
         err = net.deliver(sim, pipe, nbytes)
         sim.step += 1
